@@ -22,6 +22,32 @@ def _obs(impl):
     return d
 
 
+class _TTLTol(str):
+    """the model's answer to a renewal: a TTL capped by `issue + maximum` is counted from the REAL clock in the code and from
+    the script's logical clock in the model; under load a case takes more than the 30 s the minute-rounding absorbs. The code
+    may grant up to one minute LESS than the model (never more: that is the property, judged by verdict_predicate)."""
+    def _split(self, x):
+        head, _, rest = x.partition("|")
+        if head.startswith("ok:") and head[3:].lstrip("-").isdigit():
+            return int(head[3:]), rest
+        return None, x
+
+    def __eq__(self, other):
+        if not isinstance(other, str):
+            return NotImplemented
+        a, ra = self._split(str(self))
+        b, rb = self._split(str(other))
+        if a is None or b is None:
+            return str.__eq__(self, other)
+        return ra == rb and a - 60 <= b <= a
+
+    def __ne__(self, other):
+        r = self.__eq__(other)
+        return r if r is NotImplemented else not r
+
+    __hash__ = str.__hash__
+
+
 class Expiration(Stream):
     name = "expiration"
     driver = "expiration"
@@ -44,6 +70,11 @@ class Expiration(Stream):
 
     def nontrivial(self, op, impl):
         return impl.startswith("ok") or impl.startswith("untracked=")
+
+    def norm_model(self, op, model):
+        if op.startswith(("renew\t", "tokrenew\t")):
+            return _TTLTol(model)
+        return model
 
     def predicate(self, op, impl):
         base = Stream.predicate(self, op, impl)
